@@ -631,6 +631,7 @@ def crosscheck(fn, leaves, rep, where, pmax, pmin):
 
 
 RULES = {
+    "R-C19-fresh": "to_array / collapsed / fit_dtype keep no state: the dtype is fitted to the current content at every call (frame analysis shared with C17)",
     "R-C19-callers": "the callers named by the property hand fit_dtype bounds that cover every value they store: dense output (to_array) and collapsed pass a minimum for category values, collapsed sizes its output from all codes it can write, and the INDX writer sizes the coordinate word from max(coordinates, common) (imported from the C01/C06/C10 analyses)",
     "R-C19-tree": "fit_dtype is a ladder of comparisons with constants (decision tree extracted from the AST)",
     "R-C19-coverage": "every input in the domain reaches a dtype",
@@ -659,6 +660,19 @@ def main(tier):
             nc += 1
             rep.add("R-C19-callers", where, "[%s] %s" % (rule, construct), status, detail, True, witness)
     rep.floor("R-C19-callers", 6, nc)
+    # R-C19-fresh: the dtype is fitted to the index's CURRENT content on every call: the dense-output routines remember
+    # nothing on the index (a dtype memoised on the object outlives an in-place update that adds a wider or a negative id)
+    import c17
+    st17 = {"events": 0, "mods": 0, "diagnostic": {}, "exceptions": {}, "regions": 0, "shortcuts": 0}
+    k17 = 0
+    ii = prog.cls("iindexes", "iindex")
+    for nm in ("to_array", "collapsed"):
+        f17 = ii.methods.get(nm)
+        if f17 is not None:
+            c17.analyse_root(prog, f17, "pure", rep, st17, RA="R-C19-fresh", RB="R-C19-fresh", extra=False)
+            k17 += 1
+    c17.analyse_root(prog, prog.func("iindexes", "fit_dtype"), "pure", rep, st17, RA="R-C19-fresh", RB="R-C19-fresh", extra=False)
+    rep.floor("R-C19-fresh", 3, k17 + 1)
     return rep.finish()
 
 
